@@ -22,5 +22,6 @@ CONSTANTS
   EncodeAtEnqueue = FALSE
   BugZeroCostHeld = FALSE
   SplitOnlyAtEnqueue = TRUE
-INVARIANTS WithinGrant WithinMaxFrame CreditReturned NoEligibleQueued LedgerAgrees PrefixFidelity HpackInOrder
+  DropOnClose = FALSE
+INVARIANTS WithinGrant WithinMaxFrame CreditReturned NoEligibleQueued LedgerAgrees PrefixFidelity Conserved HpackInOrder
 CHECK_DEADLOCK FALSE
